@@ -276,4 +276,22 @@ theorem reachable_linv {cap n : Nat} {s : State} (h : Reachable cap n s) : LInv 
     (fun _ _ _ _ ih h => wStep_linv ih h) (fun _ _ _ _ _ _ ih h => rBegin_linv ih h)
     (fun _ _ _ _ _ ih h => rStep_linv ih h) h
 
+/-- run a schedule (used by the non-vacuity examples) -/
+def run (s : State) : List Act → Option State
+  | [] => some s
+  | a :: as => match step s a with
+    | some (s', _) => run s' as
+    | none => none
+
+theorem reachable_run {cap n : Nat} {s s' : State} (h : Reachable cap n s) {as : List Act}
+    (hr : run s as = some s') : Reachable cap n s' := by
+  induction as generalizing s with
+  | nil => simp [run] at hr; subst hr; exact h
+  | cons a as ih =>
+    simp only [run] at hr
+    split at hr
+    · rename_i s1 r hs; exact ih (Reachable.step h hs) hr
+    · cases hr
+
+
 end AranyaV.Shm
